@@ -416,6 +416,11 @@ class Analysis:
         if isinstance(e, ast.Name):
             if e.id in env:
                 return set(env[e.id])
+            r = self.prog.lookup(fi, e.id)
+            if isinstance(r, tuple) and r[0] == "const":
+                v = r[2]
+                if isinstance(v, (ast.Dict, ast.List, ast.Set)) or (isinstance(v, ast.Call) and norm(v.func).split(".")[-1] in ("dict", "list", "set", "defaultdict", "OrderedDict", "WeakValueDictionary", "deque")):
+                    return {("S", ("<global>", e.id))}  # module-level mutable container: process-wide shared state
             return set()
         if isinstance(e, ast.Constant):
             return set()
@@ -797,7 +802,13 @@ class Analysis:
         if callee.kwarg:
             env[callee.kwarg] = set()
         self.calls_inlined.append((site, callee.short))
-        return self.exec_function(callee, env)
+        res = self.exec_function(callee, env)
+        if any(d.split("(")[0].split(".")[-1] in ("lru_cache", "cache", "cached_property", "memoize") for d in callee.decorators):
+            # a memoised function hands the SAME object to every caller and keeps it: it is shared, process-wide state
+            c = ("S", ("<memo>", callee.short))
+            self.heap.setdefault((c, "*"), set()).update(res)
+            self.notes.append(f"{callee.short} is memoised: its results are retained and shared ({site})")
+        return res
 
 
 class _Frame:
